@@ -306,6 +306,37 @@ def witnessCompletion (g : Cfg) (t : TxIn) (vs : List Var) (ids : List Nat) (p :
     | none => some e
     | some b => if e.length < b.length then some e else some b) none
 
+/-! ### where an omitted record lies relative to the peptide (classification of label defects) -/
+
+/-- the stretch `[a, b)` that record `v ∈ h` occupies in the sequence carrying `h` -/
+def appliedSpan (h : List Var) (v : Var) : Nat × Nat :=
+  let shift : Int := h.foldl (fun acc w =>
+    if w.stop ≤ v.start then acc + (w.alt.length : Int) - (w.ref.length : Int) else acc) 0
+  let a := ((v.start : Int) + shift).toNat
+  (a, a + max v.alt.length 1)
+
+/-- DNA stretches `[a, b)` of the occurrences of `p` inside the stop-free translation of a
+permitted reading frame of `seq` -/
+def occurrences (t : TxIn) (seq : List Char) (sec : List Nat) (p : Pep) : List (Nat × Nat) :=
+  (orfStarts t seq).flatMap fun s =>
+    let prot := (proteinFrom seq sec s).1
+    (List.range (prot.length + 1 - p.length)).filterMap fun i =>
+      if (prot.drop i).take p.length == p then some (s + 3 * i, s + 3 * (i + p.length)) else none
+
+/-- NOT part of any definition — used only to classify a header entry that is no witness: in the
+combination `ids ++ extra` (a witness for `p`), does one of the records the entry OMITS
+(`extra`) lie inside the stretch that encodes `p`?  (`false` when `p` is not a plain stretch
+of the translation, e.g. a W→F form.) -/
+def omittedInside (t : TxIn) (vs : List Var) (ids extra : List Nat) (p : Pep) : Bool :=
+  let us := sortByStart (vs.filterMap (usable t))
+  let all := ids ++ extra
+  let h := us.filter fun v => v.ids.all all.contains
+  let seq := applyHap t.seq h
+  let occ := occurrences t seq (secAfter t.sec h) p
+  (h.filter fun v => v.ids.any extra.contains).any fun v =>
+    let (a, b) := appliedSpan h v
+    occ.any fun (x, y) => decide (a < y) && decide (x < b)
+
 /-! ### callNovelORF and callAltTranslation (no variants) -/
 
 /-- S (C08): peptides of every ATG-initiated ORF in three frames of the transcript, minus the
